@@ -141,5 +141,5 @@ def run(ctx):
         elif ctx.tier == "thorough":
             if not kq and "ddr2" not in n and not ctx.only:
                 continue      # the remaining module benches are built on demand (--only) but are too heavy for a bounded thorough run
-            ctx.add(n, (kq + 6) if kq else 30, timeout=1200, min_K=kq or 26, chunk=2)
+            ctx.add(n, kq or 30, timeout=1200)      # thorough = one more memory type at the quick depth (deeper windows ran past 40 min)
     ctx.run()
